@@ -86,6 +86,8 @@ pub fn world_state(w: &mut W) -> (Vec<(String, [Option<u64>; 4])>, [u64; 3]) {
 pub struct TaskState {
     pub tag: u64,
     pub acc: u64,
+    /// the share of `acc` that came from reading resources
+    pub res_acc: u64,
     pub runs: u32,
     pub matched: u32,
     /// position in the fork/join tree when the task ran: (fork number, side) pairs
@@ -384,6 +386,10 @@ pub fn check_case<S: Case>(spec: &WorldSpec, pools: &[rayon::ThreadPool], only_b
         for (i, (s, r)) in states.iter().zip(&ref_states).enumerate() {
             if s.runs != 1 {
                 out.push(Violation { props: &["C07"], oracle: "runs-once", msg: format!("task {i} of {} ran {} times", meta.name, s.runs), bits });
+                return;
+            }
+            if s.res_acc != r.res_acc {
+                out.push(Violation { props: &["C07", "C15"], oracle: "resource-read", msg: format!("task {i} ({}) of {} read resource values summing to {:#x}; run one by one in declared order it reads {:#x} (a write through another task's resource view was not visible to it, or one made after it was)", meta.tasks[i].text, meta.name, s.res_acc, r.res_acc), bits });
                 return;
             }
             if s.acc != r.acc || s.matched != r.matched {
